@@ -1099,7 +1099,7 @@ class Interp:
         if isinstance(node.value, ast.Call) and isinstance(node.value.func, ast.Name) and node.value.func.id == 'super':
             return self.super_attr(node, frame)
         obj = self.ev(node.value, frame)
-        return self.getattr(obj, node.attr, node, frame)
+        return self.getattr(obj, node.attr, node, frame, for_call=getattr(node, '_is_callee', False))
 
     def super_attr(self, node, frame):
         call = node.value
@@ -1126,7 +1126,7 @@ class Interp:
             return '_%s%s' % (frame.cls.name.lstrip('_'), name)
         return name
 
-    def getattr(self, obj, name, node, frame=None):
+    def getattr(self, obj, name, node, frame=None, for_call=True):
         obj = self.unwrap(obj, node)
         if isinstance(obj, VNone):
             if self.pure:
@@ -1197,6 +1197,9 @@ class Interp:
             return obj          # attribute of a non-existent event argument: still "missing"
         if isinstance(obj, VOpaque) and self.pure:
             # spec text reading a field of an object known only as a term (e.g. an argument of a summarised event)
+            return VOpaque(self.ctx.uf('field.' + name, T.Obj, T.Obj)(obj.t), 'field')
+        if isinstance(obj, VOpaque) and not for_call:
+            # a data attribute of an object of an unverified class: a value determined by the object, nothing else known
             return VOpaque(self.ctx.uf('field.' + name, T.Obj, T.Obj)(obj.t), 'field')
         if isinstance(obj, VOpaque):
             return VBuiltin('opaque.' + name, obj)
@@ -1405,6 +1408,8 @@ class Interp:
             if fn == 'int' and len(node.args) == 1 and not node.keywords:
                 v = self.ev(node.args[0], frame)
                 return self.ctx.builtins.call(self, 'int', [v], {}, node)
+        if isinstance(node.func, ast.Attribute):
+            node.func._is_callee = True
         f = self.ev(node.func, frame)
         args = []
         for a in node.args:
